@@ -132,7 +132,13 @@ def oracle_C01(rs, n, ctx):
             tol_near = 1e-9 * h / vel
             if (err[near] > tol_near).any():
                 k = np.unravel_index(np.argmax(np.where(near, err, 0)), err.shape)
-                R.violate("C01:near-field", f"2D node {k} within 5 cells: |T-d/v|={err[k]:.3e} > {tol_near:.1e}", rep)
+                # known finding F16: a source between ~1e-15 and ~1e-5 of a cell off a grid line is not snapped and
+                # the off-node initialisation divides by that sub-cell size; the near field is then exact only to
+                # about the offset itself (<= 1e-6 cell) instead of to rounding
+                offs = [abs(srel_eff[a] / d[a] - round(srel_eff[a] / d[a])) for a in range(nd)]
+                illc = any(1e-15 < x < 1e-5 for x in offs) and err[near].max() <= 1e-6 * h / vel
+                key = "C01:near-field-near-line-source-ill-conditioned" if illc else "C01:near-field"
+                R.violate(key, f"2D node {k} within 5 cells: |T-d/v|={err[k]:.3e} > {tol_near:.1e}", rep)
             far = ~near
             if far.any():
                 rel = err[far] / np.maximum(exact[far], 1e-300)
@@ -475,7 +481,9 @@ def lower_bound_clause(R, g, v, d, o, src, nd, rep):
     smin = float(slow.min())
     lower = smin * dist
     if nd == 2 and max(d) / min(d) <= 2:
-        tol = 0.025 * lower + 1e-9 * max(d) * smin
+        # 2.5% far from the source; near it (and in heterogeneous media) the error is first order: half the time to
+        # cross a cell at the smallest slowness (C02's bounds are 0.75-1.5 cells at the largest slowness)
+        tol = np.maximum(0.025 * lower, 0.5 * max(d) * smin)
     else:
         tol = max(d) * smin * (1 + 1e-9)
     if (g < lower - tol).any():
